@@ -354,6 +354,98 @@ func init() {
 				}
 				return "ok"
 			}})
+		// the stretch-minimising iteration re-weights and re-solves; whatever weights it ends with, the result must
+		// be a convex-combination map: boundary where it was put, every interior vertex strictly inside the convex
+		// hull of its neighbours (<=> some positive weights make it their mean), no flipped or degenerate triangle
+		for bi, bname := range []string{"Circle", "PNorm4", "PNorm3"} {
+			bi, bname := bi, bname
+			for wi, wname := range []string{"uniform", "shape-preserving"} {
+				wi, wname := wi, wname
+				for _, it := range []struct {
+					n   int
+					eta float64
+				}{{1, 1}, {3, 1}, {-1, 0.5}, {0, 1}} {
+					it := it
+					register(scenario{name: fmt.Sprintf("stretchmin:%s/%s/iters%d-eta%g/%s", bname, wname, it.n, it.eta, dn), procs: 1, prop: "C18", about: "stretch-minimising parameterisation over a convex boundary",
+						want: func() string { return "ok" },
+						body: func() string {
+							m := discMeshes()[dn]
+							var boundary *model3d.CoordMap[model2d.Coord]
+							if bi == 0 {
+								boundary = model3d.CircleBoundary(m)
+							} else {
+								boundary = model3d.PNormBoundary(m, pnormOf(bname))
+							}
+							var w *model3d.EdgeMap[float64]
+							if wi == 0 {
+								w = model3d.Floater97UniformWeights(m)
+							} else {
+								w = model3d.Floater97ShapePreservingWeights(m)
+							}
+							uv := model3d.StretchMinimizingParameterization(m, boundary, w, nil, it.n, it.eta, false)
+							res := ""
+							m.AllVertexNeighbors().Range(func(c model3d.Coord3D, ns []model3d.Coord3D) bool {
+								got, ok := uv.Load(c)
+								if !ok {
+									res = fmt.Sprintf("VIOLATION mean: vertex %v has no parameter", c)
+									return false
+								}
+								if want, isB := boundary.Load(c); isB {
+									if got != want {
+										res = fmt.Sprintf("VIOLATION boundary: boundary vertex %v moved from %v to %v", c, want, got)
+										return false
+									}
+									return true
+								}
+								var angs []float64
+								for _, n := range ns {
+									q, _ := uv.Load(n)
+									d := q.Sub(got)
+									if d.Norm() == 0 {
+										res = fmt.Sprintf("VIOLATION mean: interior vertex %v coincides with its neighbour %v in the parameterisation", c, n)
+										return false
+									}
+									angs = append(angs, math.Atan2(d.Y, d.X))
+								}
+								sort.Float64s(angs)
+								gap := angs[0] + 2*math.Pi - angs[len(angs)-1]
+								for i := 1; i < len(angs); i++ {
+									gap = math.Max(gap, angs[i]-angs[i-1])
+								}
+								if !(gap < math.Pi-1e-9) {
+									res = fmt.Sprintf("VIOLATION mean: interior vertex %v at %v is not strictly inside the convex hull of its neighbours (they leave an angular gap of %g)", c, got, gap)
+									return false
+								}
+								return true
+							})
+							if res != "" {
+								return res
+							}
+							sign := 0.0
+							m.Iterate(func(t *model3d.Triangle) {
+								if res != "" {
+									return
+								}
+								a, _ := uv.Load(t[0])
+								b, _ := uv.Load(t[1])
+								c, _ := uv.Load(t[2])
+								ar := uvArea(a, b, c)
+								if math.Abs(ar) < 1e-12 {
+									res = fmt.Sprintf("VIOLATION flip: triangle %v is mapped to a degenerate UV triangle", *t)
+								} else if sign == 0 {
+									sign = ar
+								} else if (ar > 0) != (sign > 0) {
+									res = fmt.Sprintf("VIOLATION flip: triangle %v is flipped in the parameterisation (signed areas %g vs %g)", *t, ar, sign)
+								}
+							})
+							if res != "" {
+								return res
+							}
+							return "ok"
+						}})
+				}
+			}
+		}
 		for bi, bname := range []string{"Circle", "Square", "PNorm4", "PNorm1", "PNorm1.5", "PNorm3", "PNorm5", "PNorm8"} {
 			bi, bname := bi, bname
 			for wi, wname := range []string{"uniform", "inverse-chord", "shape-preserving"} {
